@@ -30,6 +30,20 @@ CHECKS.update({
          'single-point mutant of it is matched by the real MatchExpr and compared with a reference unifier.',
          'Trusts irsem; dependence decided on the enumerated grid; completeness of MatchExpr not demanded.', '4 C16'),
 })
+CHECKS.update({
+ 'C13': ('exploration', 'bounded exhaustive enumeration with metamorphic oracles (idempotence, all permutations x bracketings, cross-process hash-seed comparison)',
+         'Idempotence on a fresh structural copy of every simplified tree of the families; for every multiset of 2..4 operands from a 12-element '
+         'alphabet with tie-twins and each of + * ^ & |, ALL permutations x ALL binary bracketings + the flat form must simplify identically; '
+         'every rendering (simplified enumeration, decoded text in both syntaxes, lifted semantics, read sets, machine dumps) is recomputed in '
+         'fresh processes under PYTHONHASHSEED 0..3 (thorough 0..7) and compared line by line.',
+         'Metamorphic: no external oracle. Seed independence is decided for the enumerated seeds only.', '4 C13'),
+ 'C06': ('exploration', 'bounded exhaustive enumeration of (expression, binding pattern) pairs against reference substitution under irsem',
+         'Every tree of the families x every binding pattern {absent, boundary constants, symbolic expressions incl. cond-of-constants} per '
+         'identifier, plus same-address memory cells of 8/16/32 bits read back at 8..64 bits through constant/symbolic/unbound bases, each on a '
+         'fresh eval_abs; result compared with reference substitution on all 2^16 valuations (w=8) or the boundary product; all-constant inputs '
+         'must fold to the ExprInt the operators define (n-ary included).',
+         'Trusts irsem. Memory bindings only at addresses already in evaluated form (overlap is C07).', '4 C06'),
+})
 PENDING = {}
 
 def main():
